@@ -29,7 +29,7 @@ ASSUMPTIONS = [
 
 
 def lanes(tier):
-    return [("plain", "plain", 300 if tier == "quick" else 40000)]
+    return [("plain", "plain", 900 if tier == "quick" else 40000)]
 
 
 def gen_case(rng):
